@@ -7,7 +7,7 @@ import cyc
 from core import enc_list, enc_cycs, enc_table
 
 PID = 'C04'
-MODULES = ['FFVerif.Proofs.C04', 'FFVerif.Proofs.C03Reverse']
+MODULES = ['FFVerif.Proofs.C04', 'FFVerif.Proofs.C03Reverse', 'FFVerif.Proofs.C04Full']
 
 
 def close_at_extreme(rng, h):
